@@ -53,7 +53,9 @@ func TestHarnessSmoke(t *testing.T) {
 	if len(pool.Pids()) != 2 {
 		t.Fatalf("pids: %v", pool.Pids())
 	}
+	t0 := time.Now()
 	pool.Close()
+	t.Logf("graceful shutdown of 2 processes took %s", time.Since(t0))
 	if in.Signer.Alive() || in2.Signer.Alive() {
 		t.Fatal("still alive after Close")
 	}
